@@ -4,6 +4,9 @@
    Tie: correspondence ops `collect`, `filter-wiring`, `ids` (tools/props/c05.py). *)
 From RV Require Import Gen.IdTables.
 From RV Require Import Gen.CollectTables.
+From RV Require Import Gen.IdPrograms.
+From RV Require Import Model.IdPrograms.
+From RV Require Import Proofs.IdPrograms.
 From RV Require Import Model.Tree.
 From RV Require Import Model.Filters.
 From RV Require Import Model.Ids.
@@ -290,3 +293,60 @@ Fixpoint hs (s : string) : N :=
 Example C05_nv_gen :
   option_map fst (gen_id hs KClipPath (new_cache hs [("rect", "clipPath1")]%string)) = Some "clipPath2"%string.
 Proof. vm_compute. reflexivity. Qed.
+
+(* ---------------------------------------------------------------- second pass (round 4) *)
+
+(* ---- one source element, several emitted nodes: on EVERY control path of image::convert_inner (slice / no slice),
+   converter::convert_path (each arm of `match raw_paint_order.order`, append_single_paint_path inlined for Fill and Stroke)
+   and the clip-rect branch of use_node::convert - regenerated from the source as straight-line id programs - at most one
+   of the nodes pushed into the tree carries the element id (a `.clone()` of the id next to a node that keeps it, a missing
+   `= String::new()` or a copy instead of `mem::swap` makes the count 2) *)
+Theorem C05_source_id_at_most_once : forall name p,
+  In (name, p) id_programs -> (src_count (emitted p) <= 1)%nat.
+Proof. exact source_id_at_most_once. Qed.
+Print Assumptions C05_source_id_at_most_once.
+
+Theorem C05_id_programs_sites :
+  existsb (fun np => String.eqb (fst np) "image::convert_inner/slice") id_programs = true /\
+  existsb (fun np => String.eqb (fst np) "use_node::convert/clip-rect") id_programs = true /\
+  (5 <= List.length (filter (fun np => prefix "convert_path/" (fst np)) id_programs))%nat.
+Proof. exact id_programs_sites. Qed.
+Print Assumptions C05_id_programs_sites.
+
+Example C05_id_programs_nonvacuous :
+  forallb (fun np => existsb is_assign (snd np)) id_programs = true /\
+  existsb (fun np => Nat.leb 3 (List.length (emitted (snd np))) && Nat.eqb (src_count (emitted (snd np))) 1) id_programs = true.
+Proof. exact id_programs_nonvacuous. Qed.
+
+(* ---- nested documents: every document is converted with its own Cache (new_cache), so the generators restart: ANY document
+   that has no element ids gets `<prefix>1` for its first generated id of every kind - an outer document and a nested SVG
+   image therefore share generated ids (e.g. both `filter1`) .. *)
+Theorem C05_nested_generators_restart : forall h k (d : doc_ids),
+  populate all_ids_filter d = [] -> exists c, gen_id h k (new_cache h d) = Some (gen_name k 1, c).
+Proof.
+  intros h k d E. unfold gen_id, new_cache. simpl. rewrite E. simpl.
+  rewrite Bool.andb_false_r. eexists. reflexivity.
+Qed.
+Print Assumptions C05_nested_generators_restart.
+
+(* .. which is harmless for the collections only because they identify definitions by object (Arc::ptr_eq, pinned by
+   C05_collector_guards_as_modelled), never by id: two reachable filters with different identities are both collected
+   whatever their ids *)
+Theorem C05_equal_ids_both_collected : forall root f1 f2,
+  In f1 (reach_filters root) -> In f2 (reach_filters root) -> f_id f1 = f_id f2 -> f_ptr f1 <> f_ptr f2 ->
+  In (f_ptr f1) (map f_ptr (t_filts (with_collections root))) /\
+  In (f_ptr f2) (map f_ptr (t_filts (with_collections root))) /\
+  NoDup (map f_ptr (t_filts (with_collections root))).
+Proof.
+  intros root f1 f2 H1 H2 _ _. destruct (with_collections_complete root) as (_ & _ & C & _).
+  destruct (with_collections_nodup root) as (_ & _ & _ & _ & _ & N). repeat split; auto.
+Qed.
+Print Assumptions C05_equal_ids_both_collected.
+
+(* an outer group filtered by `filter1` (object 1) and a nested SVG image whose group is filtered by its own `filter1` (object 2) *)
+Example C05_nested_equal_ids_nonvacuous :
+  map f_ptr (t_filts (with_collections
+    (G 0 false None None []
+       [NGroup (G 0 false None None [FD 1 7 []] [NPath 0 true PColor PNone]);
+        NImage 0 (Some (G 0 false None None [] [NGroup (G 0 false None None [FD 2 7 []] [NPath 0 true PColor PNone])]))]))) = [1; 2].
+Proof. reflexivity. Qed.
